@@ -148,7 +148,7 @@ class CHECK(Check):
             'select case c1 when c2 then c3 else c4 end from c5',
             'select extract(c1 from c2) from c3',
             'select c1 from c2 join c3 on c4 = c5 join c6 on c7 = c8',
-            'with c1 as (select c2 from c3) select c4 from c1 where c5 in (select c6 from c7)',
+            'with q as (select c1 from c2) select c3 from q where c4 in (select c5 from c6)',
             'update c1 set c2 = 3, c4 = 5 where c6 = 7',
             'delete from c1 where c2 = 3',
             'insert into c1 (a, b) values (2, 3), (4, 5)',
